@@ -113,7 +113,10 @@ def run_case(case, ctx):
             pd = None
             if case["pdeph"]:
                 A = rng.uniform(0.0, 0.3, size=(dim, dim)) * float(numpy.linalg.norm(L, 2))
-                G = (A + A.T) / 2
+                # rate matrices as users write them (the class's own documentation gives a non-symmetric one): with G_ab != G_ba the
+                # generator no longer commutes with Hermitian conjugation, but superoperator and propagator still describe the same map
+                asym = bool(case["seed"] % 2)
+                G = A.copy() if asym else (A + A.T) / 2
                 numpy.fill_diagonal(G, 0.0)
                 pd = qm.PureDephasing(drates=G.copy(), dtype="Lorentzian")
     nL = float(numpy.linalg.norm(L, 2))
@@ -150,7 +153,10 @@ def run_case(case, ctx):
     rnd = 512 * EPS * Nt * dense * dim * Mn
     ctx.check("trace-preserving", float(numpy.max(numpy.abs(tr))), rnd, det)
     he = numpy.conj(U) - numpy.transpose(U, (0, 2, 1, 4, 3))
-    ctx.check("hermiticity-preserving", float(numpy.max(numpy.abs(he))), rnd, det)
+    if not (case["pdeph"] and asym):
+        ctx.check("hermiticity-preserving", float(numpy.max(numpy.abs(he))), rnd, det)
+    else:
+        det = dict(det, dephasing_rates="non-symmetric")
 
     # exact exponential (no pure dephasing: the splitting error of the dephasing factor is not a Taylor error)
     bounds, x, M = gksl.taylor_bounds(L, dt / dense, 4, dense, Nt, 1.0)
